@@ -259,3 +259,90 @@ def _(tier, rng):
         for is_ref in (True, False):
             for cb, rb in ((0, False), (0, True), (1, True)):
                 yield dict(is_idref=is_ref, count_before=cb, registered_before=rb, level=1, check_identities=True, id_list_none=False, in_id_list=False, id_list_len=0, ver=ver)
+
+
+# ------------------------------------------------------------------ XMLSchemaBase._validate_references: the end-of-document checks (C08, C04)
+t = Target('schemas._validate_references', ['C08', 'C04'], 'xmlschema/validators/schemas.py', 'XMLSchemaBase._validate_references',
+           note='exactly one "IDREF not found" error per value registered with count 0 (an IDREF without its ID) and none for the others; the key references that are '
+                'still enabled are checked - iter_errors of exactly the enabled keyref counters is consumed, against the whole identities map - and every error it '
+                'yields is forwarded; nothing in the ID map is changed',
+           assumes=['id_map is a Counter (values are counts); KeyrefCounter.iter_errors is under its own contract; the error objects are opaque'])
+
+
+@t.symbolic
+def _(run):
+    ex = run.exec(); st = new_state()
+    dom = z3.Const('id_dom', z3.ArraySort(S, B)); val = z3.Const('id_val', z3.ArraySort(S, I))
+    idom = z3.Const('identities_dom', z3.ArraySort(Ref, B)); enabled = z3.Function('counter_enabled', Ref, B); is_keyref = z3.Function('is_keyref', Ref, B)
+    c_map = st.alloc(kind='dict', dom=dom, val=val, ksort=S, default=0, wrap=lambda t_: VInt(t_))
+    st.objf['source'] = {'root': OPAQUE}
+    st.objf['context'] = {'id_map': VDict(c_map), 'identities': ('identities',), 'source': VObj('source')}
+    st.env.update(self=OPAQUE, validation=VStr(z3.String('validation')), context=VObj('context'))
+    flagged0 = z3.K(S, False); checked0 = z3.K(Ref, False)
+    st.ghost.update(flagged=flagged0, dup=z3.BoolVal(False), checked=checked0, phase=0, cur=None, forwarded=z3.BoolVal(True), against_all=z3.BoolVal(True))
+    ex.callees['validation_error'] = lambda e, s, r, a, k: OPAQUE
+    ex.callees['_'] = lambda *a: OPAQUE
+    ex.callees['cast'] = lambda e, s, r, a, k: a[1]
+    ex.names.update(KeyrefCounter=OPAQUE, XsdKeyref=OPAQUE)
+    orig_binop = ex.e_BinOp
+    ex.e_BinOp = lambda e, s: OPAQUE if isinstance(e.op, ast.Mod) else orig_binop(e, s)
+
+    def isinstance_(e, s, r, a, k):
+        if isinstance(a[0], VRef) and ast.unparse(a[1]) == 'XsdKeyref': return VBool(is_keyref(a[0].t))
+        raise Unsupported('isinstance ' + ast.unparse(a[1]))
+    ex.callees['isinstance'] = isinstance_
+
+    def do_yield(v, s):
+        if s.ghost['phase'] == 1:
+            s.ghost['dup'] = z3.Or(s.ghost['dup'], s.ghost['flagged'][s.ghost['cur']]); s.ghost['flagged'] = z3.Store(s.ghost['flagged'], s.ghost['cur'], True)
+        return [('fall', None, s)]
+    ex.do_yield = do_yield
+    q = z3.Const('q', S); r_ = z3.Const('r', Ref)
+
+    def loop1(ex_, node, s):
+        s.ghost['phase'] = 1
+        inv = lambda s2, seen: z3.And(z3.ForAll([q], s2.ghost['flagged'][q] == z3.And(seen[q], val[q] == 0)), z3.Not(s2.ghost['dup']))
+        def havoc(s2): s2.ghost['flagged'] = z3.FreshConst(z3.ArraySort(S, B), 'flagged'); s2.ghost['dup'] = z3.FreshConst(B, 'dup')
+        def bind(sb, x): sb.env['k'] = VStr(x); sb.env['v'] = VInt(val[x]); sb.ghost['cur'] = x
+        outs = foreach(ex_, node, s, S, dom, bind, inv, havoc)
+        for _, _, s2 in outs: s2.ghost['phase'] = 2
+        return outs
+    ex.invariants['for (k, v) in context.id_map.items()'] = loop1
+
+    def loop2(ex_, node, s):
+        inv = lambda s2, seen: z3.And(z3.ForAll([r_], s2.ghost['checked'][r_] == z3.And(seen[r_], enabled(r_), is_keyref(r_))), s2.ghost['forwarded'], s2.ghost['against_all'])
+        def havoc(s2): s2.ghost['checked'] = z3.FreshConst(z3.ArraySort(Ref, B), 'checked')
+        def bind(sb, x):
+            sb.env['identity'] = VRef(x); sb.objf['counter'] = {'enabled': VBool(enabled(x))}; sb.env['counter'] = VObj('counter'); sb.ghost['cur'] = x
+        return foreach(ex_, node, s, Ref, idom, bind, inv, havoc)
+    ex.invariants['for (identity, counter) in context.identities.items()'] = loop2
+
+    def loop3(ex_, node, s):
+        # one pass over the errors of the current keyref counter: the body must yield (forward) the error on every path
+        if ast.unparse(node.iter) != 'cast(KeyrefCounter, counter).iter_errors(context.identities)':
+            s.ghost['against_all'] = z3.BoolVal(False)
+        s.ghost['checked'] = z3.Store(s.ghost['checked'], s.ghost['cur'], True)
+        sb = s.fork(); sb.env[node.target.id] = OPAQUE; n0 = len(sb.ghost.get('yielded', []))
+        sb.ghost['phase'] = 3; sb.ghost['n3'] = 0
+        orig = ex.do_yield
+
+        def y3(v, s3): s3.ghost['n3'] = s3.ghost.get('n3', 0) + 1; return [('fall', None, s3)]
+        ex.do_yield = y3
+        try:
+            for kind, val_, s2 in ex_.block(node.body, sb):
+                if kind not in ('fall', 'continue') or s2.ghost.get('n3', 0) != 1: s.ghost['forwarded'] = z3.BoolVal(False)
+        finally: ex.do_yield = orig
+        return [('fall', None, s)]
+    ex.invariants['for error in cast(KeyrefCounter, counter).iter_errors(context.identities)'] = loop3
+    pre = z3.ForAll([q], val[q] >= 0)
+    outs = ex.run(st, pre)
+
+    def idref(kind, v, s):
+        if kind not in ('fall', 'return'): return z3.BoolVal(False)
+        return z3.And(z3.ForAll([q], s.ghost['flagged'][q] == z3.And(dom[q], val[q] == 0)), z3.Not(s.ghost['dup']))
+
+    def keyrefs(kind, v, s):
+        if kind not in ('fall', 'return'): return z3.BoolVal(False)
+        return z3.And(z3.ForAll([r_], s.ghost['checked'][r_] == z3.And(idom[r_], enabled(r_), is_keyref(r_))), s.ghost['forwarded'], s.ghost['against_all'])
+    frame = lambda kind, v, s: z3.And(s.heap[c_map]['dom'] == dom, s.heap[c_map]['val'] == val)
+    run.post(ex, outs, pre, {'one-error-per-unresolved-idref-and-no-other': idref, 'exactly-the-enabled-keyrefs-are-checked-and-their-errors-forwarded': keyrefs, 'frame-id-map-unchanged': frame})
